@@ -155,7 +155,7 @@ CHECKS = {
         "technique": "property-based testing (rapid) with structure-aware mutation + native coverage-guided fuzzing (thorough); oracles inside the target: no panic/hang, input unmodified, determinism, extent by construction / differential with an independent parser / canary backing array",
         "level_text": "Generated-input exploration of malformed input: valid encodings of generic trees, requests, responses and all 54 payload types are mutated so that exactly the fields the statement names (length, type, nesting) disagree with what follows; XML/JSON documents are mutated at document level (wrong kinds at every position, unknown types, hostile scalars). Every decode runs under panic capture and a watchdog; the input is compared with a pristine copy; a second decode must agree; for binary, over-reads are detected three ways (mutants built to overrun their parent must be rejected; acceptance implies acceptance by the independent extent-mode parser and equal trees; results must not depend on bytes beyond len(input) within cap). Thorough adds native fuzzing of the same oracle for all three decoders.",
         "level_note": "Bounded input sizes (<= ~320 KiB, mostly < 2 KiB); hang verdict = no return within 60 s; trusts harness/ttlvref in extent mode (deliberately lenient about everything C02 does not state).",
-        "jobs": [rapid("codec", "TestC02Binary", 20000, 50000), rapid("codec", "TestC02Text", 10000, 40000), rapid("codec", "TestC02Nesting", 4000, 30000, shards=4), rapid("codec", "TestC02Stream", 6000, 30000, shards=6),
+        "jobs": [rapid("codec", "TestC02Binary", 20000, 50000), rapid("codec", "TestC02Text", 20000, 60000), rapid("codec", "TestC02Nesting", 4000, 30000, shards=4), rapid("codec", "TestC02Stream", 6000, 30000, shards=6),
                  fuzz("codec", "FuzzC02Binary"), fuzz("codec", "FuzzC02XML"), fuzz("codec", "FuzzC02JSON")],
         "assumptions": ["tag 000000 is the library's documented end-of-data marker: a generic structure stops there, which is not an over-read",
                         "UnmarshalTTLV decodes the first item and ignores trailing bytes (documented behaviour of the item reader)"],
@@ -184,7 +184,7 @@ CHECKS = {
         "level_note": "Interleavings are explored by real concurrent execution from cold starts (the scheduler is not controlled); the race detector only sees races that occur in the executions run.",
         "jobs": [rapid("codec", "TestC20History", 120, 600, shards=8),
                  dict(rapid("codec", "TestC20History", 4, 20, shards=4), race="always", timeout_s={"quick": 600, "thorough": 1500}),
-                 rapid("codec", "TestC20Appended", 3000, 30000)],
+                 rapid("codec", "TestC20Appended", 3000, 30000), dict(rapid("codec", "TestC20Versions", 60, 600), race=True)],
         "assumptions": ["children inherit the same environment (time zone), so date formatting is identical"],
     },
     "C03": {
